@@ -1070,11 +1070,15 @@ func (bp *boundsProver) dynTargets(call ssa.CallInstruction) ([]*ssa.Function, b
 // slots bind the same values).
 func dynArgs(call ssa.CallInstruction) []ssa.Value {
 	out := append([]ssa.Value{}, call.Common().Args...)
-	ix, ok := call.Common().Value.(*ssa.Index)
+	vi, ok := call.Common().Value.(ssa.Instruction)
 	if !ok {
 		return out
 	}
-	binds := funcTableBindings(ix.X)
+	tbl, _, _, ok := tableElem(vi)
+	if !ok || len(funcTableOf(tbl)) == 0 {
+		return out
+	}
+	binds := funcTableBindings(tbl)
 	var common []ssa.Value
 	for i, mc := range binds {
 		if mc == nil {
